@@ -6,13 +6,17 @@
   construction `alignerAlign`; the join score reads coordinates only after the `fix:` commit
   (src/alignment/segment_chainer.py:56-58, see C14_join_strand_blind).  Not modelled: that the
   seeds of a query and of its mirror image coincide (bit vectors of a commensurate lattice are
-  mirror images; scipy is deterministic) — exercised by the harness on the real first pass.
+  mirror images) for the PRIMARY stage, which divides by a float array carrying FFT rounding noise —
+  exercised by the harness on the real first pass.  The SECONDARY stage is in the model
+  (`Coma/Peaks.lean`): `C11_correlation_input_mirror`, `C11_secondary_seeds_mirror` below.  With a
+  strand-symmetric primary vector the primary cut itself is not equivariant: known finding KF-e.
   Quantifier: all maps, seed peak lists, strands and parameters, under `NoTies` (no reference
   label has two equidistant query partners within maxDistance — true on a lattice whose step
   exceeds twice maxPairDistance).
 -/
 import Props.Defs
 import Proofs.Mirror
+import Proofs.SeqMirror
 namespace Coma.Props
 open Coma Coma.Spec
 
@@ -50,5 +54,32 @@ theorem C11_pairing_mirror (md : Int) (ref qry : OMap) (start stop : Int) (rev :
     engineAlign md ref qry.mirror start stop (!rev) it =
       (engineAlign md ref qry start stop rev it).map (relabelAPos (fun k => (qry.positions.length : Int) + 1 - k) id) :=
   Coma.Proofs.engineAlign_mirror md ref qry start stop rev it ht hnt
+
+/-- on a lattice commensurate with the resolution the bit vector of the mirror image is the reversed bit
+    vector (binning is mirror-symmetric), and blurring commutes with reversal -/
+theorem C11_vector_mirror (m : OMap) (res blurR : Int) (ht : Coma.Proofs.Trimmed m) (hres : 1 ≤ res)
+    (hl : ∀ p ∈ m.positions, res ∣ p) :
+    sequenceOf res blurR m.mirror.positions 0 none = (sequenceOf res blurR m.positions 0 none).map List.reverse :=
+  Coma.Proofs.sequenceOf_mirror m res blurR ht hres hl
+
+/-- so the array correlated for the mirror image on the other strand is the very same array -/
+theorem C11_correlation_input_mirror (c : SecCfg) (q : OMap) (rev : Bool) (ht : Coma.Proofs.Trimmed q) (hres : 1 ≤ c.res)
+    (hl : ∀ p ∈ q.positions, c.res ∣ p) :
+    querySequence c q.mirror (!rev) = querySequence c q rev :=
+  Coma.Proofs.querySequence_mirror c q rev ht hres hl
+
+/-- and the secondary stage hands the aligner the same seeds for a molecule on one strand and for its
+    mirror image on the other (every reference, every primary peak, every parameter setting) -/
+theorem C11_secondary_seeds_mirror (c : SecCfg) (ref q : OMap) (rev : Bool) (peak : Int) (ht : Coma.Proofs.Trimmed q)
+    (hres : 1 ≤ c.res) (hl : ∀ p ∈ q.positions, c.res ∣ p) :
+    refine c ref q.mirror (!rev) peak = refine c ref q rev peak :=
+  Coma.Proofs.refine_mirror c ref q rev peak ht hres hl
+
+/-- non-vacuity: a trimmed lattice molecule, and off the lattice the vectors do differ -/
+example : Coma.Proofs.Trimmed { id := 1, length := 1301, positions := [0, 200, 300, 900, 1300] } ∧
+    (∀ p ∈ [0, 200, 300, 900, 1300], (100 : Int) ∣ p) := by
+  refine ⟨⟨rfl, rfl, by decide, by simp [Ascending]⟩, by decide⟩
+example : sequenceOf 100 0 ({ id := 1, length := 1302, positions := [0, 250, 300, 901, 1301] } : OMap).mirror.positions 0 none
+    ≠ (sequenceOf 100 0 [0, 250, 300, 901, 1301] 0 none).map List.reverse := by decide +kernel
 
 end Coma.Props
